@@ -1,0 +1,128 @@
+//! Verification hooks. Compiled only with `--cfg suiron_verif`.
+//!
+//! These hooks only observe: they record events of the inference engine and of
+//! the query timer, and let a test harness decide when the query timer fires.
+//! Nothing here is compiled into a normal build.
+
+use std::cell::{Cell, RefCell};
+use std::sync::atomic::{AtomicBool, AtomicI64, AtomicUsize, Ordering};
+use std::sync::{Condvar, Mutex};
+use std::time::Duration;
+
+// ---------- events of the inference engine (single thread) ----------
+
+thread_local! {
+    static RECORDING: Cell<bool> = Cell::new(false);
+    static EVENTS: RefCell<Vec<String>> = RefCell::new(vec![]);
+}
+
+/// Switches the recording of engine events on or off (for this thread).
+pub fn record(on: bool) { RECORDING.with(|r| r.set(on)); }
+
+/// Is recording switched on?
+pub fn recording() -> bool { RECORDING.with(|r| r.get()) }
+
+/// Records one event (a JSON object, as text).
+pub fn emit(event: String) {
+    if recording() { EVENTS.with(|e| e.borrow_mut().push(event)); }
+}
+
+/// Returns and clears the recorded events.
+pub fn take_events() -> Vec<String> {
+    EVENTS.with(|e| std::mem::take(&mut *e.borrow_mut()))
+}
+
+/// Escapes a string for inclusion in a JSON text.
+pub fn esc(s: &str) -> String {
+    let mut out = String::new();
+    for ch in s.chars() {
+        match ch {
+            '"' => out.push_str("\\\""),
+            '\\' => out.push_str("\\\\"),
+            '\n' => out.push_str("\\n"),
+            '\t' => out.push_str("\\t"),
+            c if (c as u32) < 0x20 => out.push_str(&format!("\\u{:04x}", c as u32)),
+            c => out.push(c),
+        }
+    }
+    out
+}
+
+// ---------- virtual timer ----------
+
+static COUNTDOWN: AtomicI64 = AtomicI64::new(0);
+
+/// The n-th following call of count_rules() behaves as if the query timer
+/// fired just before it. (0 disarms.)
+pub fn arm_virtual_timer(n: i64) { COUNTDOWN.store(n, Ordering::SeqCst); }
+
+/// Called at the start of count_rules().
+pub fn on_count_rules() {
+    let c = COUNTDOWN.load(Ordering::SeqCst);
+    if c > 0 {
+        COUNTDOWN.store(c - 1, Ordering::SeqCst);
+        if c == 1 {
+            crate::time_out::stop_query();
+            emit("{\"e\":\"vtimer\"}".to_string());
+        }
+    }
+}
+
+// ---------- the real timer: a gate in front of the callback, and a log ----------
+
+static GATE_ON: AtomicBool = AtomicBool::new(false);
+static GATE: (Mutex<u8>, Condvar) = (Mutex::new(0), Condvar::new());
+
+/// When on, the timer callback waits at the gate until release_callback().
+pub fn gate_timer_callback(on: bool) {
+    GATE_ON.store(on, Ordering::SeqCst);
+    *GATE.0.lock().unwrap() = 0;
+}
+
+/// Called by the timer callback before it sets the stop flag.
+pub fn before_timer_callback() {
+    if !GATE_ON.load(Ordering::SeqCst) { return; }
+    let mut state = GATE.0.lock().unwrap();
+    *state = 1;   // arrived
+    GATE.1.notify_all();
+    while *state != 2 { state = GATE.1.wait(state).unwrap(); }
+    *state = 0;
+}
+
+/// Waits until the timer callback has arrived at the gate.
+pub fn wait_callback_arrived(timeout_ms: u64) -> bool {
+    let state = GATE.0.lock().unwrap();
+    let (state, _) = GATE.1.wait_timeout_while(state, Duration::from_millis(timeout_ms),
+                                               |s| *s != 1).unwrap();
+    *state == 1
+}
+
+/// Lets the timer callback pass the gate.
+pub fn release_callback() {
+    let mut state = GATE.0.lock().unwrap();
+    if *state == 1 { *state = 2; GATE.1.notify_all(); }
+}
+
+static SEQ: AtomicUsize = AtomicUsize::new(0);
+static TLOG: Mutex<Vec<String>> = Mutex::new(vec![]);
+static TLOG_ON: AtomicBool = AtomicBool::new(false);
+
+/// Switches the log of timer events (all threads) on or off and clears it.
+pub fn timer_log(on: bool) {
+    TLOG_ON.store(on, Ordering::SeqCst);
+    TLOG.lock().unwrap().clear();
+}
+
+/// Logs a timer event with a global sequence number, taken under the log's lock.
+pub fn tlog(event: &str) {
+    if !TLOG_ON.load(Ordering::SeqCst) { return; }
+    let mut log = TLOG.lock().unwrap();
+    let n = SEQ.fetch_add(1, Ordering::SeqCst);
+    let tid = format!("{:?}", std::thread::current().id());
+    log.push(format!("{{\"seq\":{},\"e\":\"{}\",\"tid\":\"{}\"}}", n, event, tid));
+}
+
+/// Returns and clears the timer log.
+pub fn take_timer_log() -> Vec<String> {
+    std::mem::take(&mut *TLOG.lock().unwrap())
+}
